@@ -451,8 +451,14 @@ fn main() {
             30,
             |p, k| {
                 let x = lex::case_of(sigma, plx, p, k);
-                println!("HANG context=\"{}\" partition={p} case={k} x=\"{}\"", show(pre), show(&x));
-                std::process::exit(3);
+                let mut full = pre.to_vec();
+                full.extend_from_slice(&x);
+                let f2 = full.clone();
+                let starts2: Vec<&'static Node> = st.iter().map(|s| s.1).collect();
+                if mc::par::confirm_hang(move || { for s in starts2 { let _ = verdict(root, s, &f2); } }, 30) {
+                    println!("HANG engine=parse x=\"{}\" (no progress for 30 s, and 30 s when parsed alone)", show(&full));
+                    std::process::exit(3);
+                }
             },
         );
         expected_cases += lex::count_upto(sigma.len(), plx) * st.len() as u64;
